@@ -65,7 +65,7 @@ theorem aff_scan {A B C l0 l1 r0 r1 : List K} (h0 : Aff A B C l0) (h1 : Aff A B 
     (h2 : Aff A B C r0) (h3 : Aff A B C r1) (y0 y1 : K) :
     ∀ row ∈ scan y0 y1 l0 l1 r0 r1, ∀ f ∈ row.frags, Aff A B C f := by
   unfold scan
-  simp only
+  simp only [recip0_eq]
   have hdl := dif_dvdt (1 / (y1 - y0)) h0 h1
   apply aff_scanRows hdl
   · split
